@@ -2,7 +2,7 @@
   Lemmas/BatcherFlush.lean — the inductive invariant behind C07 `flush_sound` (DESIGN Appendix A.2), one lemma
   per label / branch so that every tactic call stays well under the default heartbeat budget.
 -/
-import EmitModel.Lemmas.Batcher
+import EmitModel.Lemmas.BatcherBound
 namespace EmitModel.Batcher
 open EmitModel.Sched
 
@@ -234,16 +234,6 @@ theorem invFlush_whenFlushed (s : St) (w : Nat) (h : InvFlush s) (ha : s.senderA
       simp only [List.mem_append, List.mem_singleton]
       exact Or.inl (h9 w' hf)
 
-
-theorem send_reg (cfg : Cfg) (s : St) (x : Nat) :
-    (send cfg s x).registered = s.registered ∧ (send cfg s x).tornDown = s.tornDown := by
-  unfold send
-  by_cases hc : s.pending.length ≥ cfg.cap <;> by_cases ho : s.isOpen <;> simp [hc, ho, truncate, push]
-
-theorem trySend_reg (cfg : Cfg) (s : St) (x : Nat) :
-    (trySend cfg s x).1.registered = s.registered ∧ (trySend cfg s x).1.tornDown = s.tornDown := by
-  unfold trySend
-  by_cases ho : s.isOpen <;> by_cases hc : s.pending.length < cfg.cap <;> simp [ho, hc, push]
 
 /-- The inductive form: as long as flush-watcher names are distinct and the receiver has not been torn down. -/
 def InvF (s : St) : Prop := s.registered.Nodup → s.tornDown = false → InvFlush s
